@@ -216,7 +216,7 @@ def _run_headers(case):
 
 
 # decimal numerals as other programs write them (no digit before / after the point, explicit plus sign, upper-case exponent, leading zeros)
-FORMS = [".5", "-.25", "5.", "+.5e-3", "1.E3", "1e3", "1E-2", "+7", "007", "0.50", "-0.0", "1e+2", "12.", "-.5E+1", "+0", "3"]
+FORMS = [".5", "-.25", "5.", "+.5e-3", "1.E3", "1e3", "1E-2", "+7", "007", "0.50", "-0.0", "1e+2", "12.", "-.5E+1", "+0", "3", '"2.5"', '"-4"']
 
 
 def _run_forms(case):
@@ -227,7 +227,7 @@ def _run_forms(case):
     sample = None
     try:
         for form in FORMS:
-            value = float(form)
+            value = float(form.strip('"'))  # (a quoted cell is the cell without its quotes: CSV quoting)
             for layout, idx in ((["A"], 0), (["A", "B"], 0), (["B", "A"], 1)):
                 for pos in (0, 1, 2):
                     col = [1.5, 2.5, 4.0]
